@@ -3,6 +3,7 @@ package main
 import (
 	"context"
 	"encoding/hex"
+	"encoding/pem"
 	"fmt"
 	"io"
 	"strings"
@@ -21,17 +22,17 @@ import (
 // fakeTB lets the harness use the repository's testing helpers that want a testing.TB.
 type fakeTB struct{ testing.TB }
 
-func (fakeTB) Helper()                            {}
-func (fakeTB) Fatalf(f string, a ...any)          { panic(fmt.Sprintf(f, a...)) }
-func (fakeTB) Fatal(a ...any)                     { panic(fmt.Sprint(a...)) }
-func (fakeTB) Errorf(f string, a ...any)          { panic(fmt.Sprintf(f, a...)) }
-func (fakeTB) Logf(string, ...any)                {}
-func (fakeTB) Cleanup(func())                     {}
-func (fakeTB) Name() string                       { return "verif" }
-func (fakeTB) TempDir() string                    { panic("TempDir not supported") }
-func (fakeTB) Setenv(string, string)              {}
-func (fakeTB) Skip(...any)                        {}
-func (fakeTB) Failed() bool                       { return false }
+func (fakeTB) Helper()                   {}
+func (fakeTB) Fatalf(f string, a ...any) { panic(fmt.Sprintf(f, a...)) }
+func (fakeTB) Fatal(a ...any)            { panic(fmt.Sprint(a...)) }
+func (fakeTB) Errorf(f string, a ...any) { panic(fmt.Sprintf(f, a...)) }
+func (fakeTB) Logf(string, ...any)       {}
+func (fakeTB) Cleanup(func())            {}
+func (fakeTB) Name() string              { return "verif" }
+func (fakeTB) TempDir() string           { panic("TempDir not supported") }
+func (fakeTB) Setenv(string, string)     {}
+func (fakeTB) Skip(...any)               {}
+func (fakeTB) Failed() bool              { return false }
 
 var baseTime = time.Date(2024, time.September, 1, 0, 0, 0, 0, time.UTC)
 
@@ -97,4 +98,12 @@ func b2s(b bool) string {
 func tok(s string) string {
 	r := strings.NewReplacer(" ", "_", "=", "_", ";", "_", ":", "_", ",", "_", "\n", "_")
 	return r.Replace(s)
+}
+
+func pemDecode(b []byte) ([]byte, []byte) {
+	blk, rest := pem.Decode(b)
+	if blk == nil {
+		return nil, rest
+	}
+	return blk.Bytes, rest
 }
